@@ -12,6 +12,12 @@ pub mod c09;
 pub mod c10;
 pub mod c11;
 pub mod c12;
+pub mod c13;
+pub mod c14;
+pub mod c15;
+pub mod c16;
+pub mod c17;
+pub mod c18;
 pub mod c19;
 
 pub fn all() -> Vec<Box<dyn Check>> {
@@ -27,6 +33,12 @@ pub fn all() -> Vec<Box<dyn Check>> {
 		Box::new(c10::C10),
 		Box::new(c11::C11),
 		Box::new(c12::C12),
+		Box::new(c13::C13),
+		Box::new(c14::C14),
+		Box::new(c15::C15),
+		Box::new(c16::C16),
+		Box::new(c17::C17),
+		Box::new(c18::C18),
 		Box::new(c19::C19),
 	]
 }
